@@ -117,7 +117,7 @@ pub fn fa_views<N: Nd, const L: usize>(nd: &mut N) {
     check_id_desc(rec.head(), rec.id_bytes(), rec.desc_bytes(), rec.id_desc_bytes());
     use seq_io::fasta::Record as R2;
     check_id_desc(R2::head(&o), o.id_bytes(), o.desc_bytes(), o.id_desc_bytes());
-    cover!(cl >= 2, "sequence of at least two bytes");
+    cover!(L == 1 || cl >= 2, "sequence of at least two bytes (if there are lines)");
     std::mem::forget(owned);
     std::mem::forget(full);
     std::mem::forget(o);
